@@ -55,6 +55,7 @@ def projects(draw: Any, with_star: bool = True, with_class_imports: bool = True)
         body: List[Dict[str, Any]] = []
         earlier = [x for x in layout[:mi] if not x.startswith(m + '.')]
         names_here: List[Tuple[str, str]] = []
+        class_aliases: List[str] = []
         # imports
         for _ in range(draw(st.integers(0, 4)) if earlier else 0):
             tgt = draw(st.sampled_from(earlier))
@@ -101,7 +102,9 @@ def projects(draw: Any, with_star: bool = True, with_class_imports: bool = True)
                     names_here.append((alias, kind))
                     if nm in own_defs.get(tgt, []):
                         must.setdefault(m, []).append(alias)
-            elif form == 'star' and public.get(tgt):
+            elif form == 'star' and public.get(tgt) and not m.startswith(tgt + '.'):
+                # not from an ancestor package: which of its submodules are bound there at that moment (never the importing
+                # module itself) depends on import timing, not on the source
                 body.append({'k': 'import', 'text': 'from %s import *' % tgt})
         # definitions
         for _ in range(draw(st.integers(1, 3))):
@@ -114,25 +117,33 @@ def projects(draw: Any, with_star: bool = True, with_class_imports: bool = True)
                     j = nxt()
                     r = relative(layout, m, tgt)
                     use_rel = r is not None and draw(st.booleans())
+                    # the alias bound in the class body is sometimes a name that the module (or an earlier class of the module)
+                    # binds to something else: each scope must keep its own binding
+                    reuse = [n for n, k in names_here if n[:1] in 'mnr' and n[1:2] != 'p' and '.' not in n and n[-1:].isdigit()] + class_aliases
+                    forced = draw(st.sampled_from(reuse)) if reuse and draw(st.booleans()) else None
                     if public.get(tgt) and draw(st.booleans()):
                         nm, kd = draw(st.sampled_from(public[tgt]))
+                        al = forced or 'ci%d' % j
                         if use_rel:
-                            d['cimports'].append({'text': 'from %s%s import %s as ci%d' % ('.' * r[0], r[1], nm, j), 'name': 'ci%d' % j})
+                            d['cimports'].append({'text': 'from %s%s import %s as %s' % ('.' * r[0], r[1], nm, al), 'name': al})
                         else:
-                            d['cimports'].append({'text': 'from %s import %s as ci%d' % (tgt, nm, j), 'name': 'ci%d' % j})
+                            d['cimports'].append({'text': 'from %s import %s as %s' % (tgt, nm, al), 'name': al})
                         if nm in own_defs.get(tgt, []):
-                            d['cmust'] = d.get('cmust', []) + ['ci%d' % j]
+                            d['cmust'] = d.get('cmust', []) + [al]
                     elif use_rel and r[1]:
                         level, rem = r
+                        al = forced or 'cm%d' % j
                         if '.' in rem:
                             par, leaf = rem.rsplit('.', 1)
-                            d['cimports'].append({'text': 'from %s%s import %s as cm%d' % ('.' * level, par, leaf, j), 'name': 'cm%d' % j})
+                            d['cimports'].append({'text': 'from %s%s import %s as %s' % ('.' * level, par, leaf, al), 'name': al})
                         else:
-                            d['cimports'].append({'text': 'from %s import %s as cm%d' % ('.' * level, rem, j), 'name': 'cm%d' % j})
-                        d['cmust'] = d.get('cmust', []) + ['cm%d.%s' % (j, x) for x in own_defs.get(tgt, [])]
+                            d['cimports'].append({'text': 'from %s import %s as %s' % ('.' * level, rem, al), 'name': al})
+                        d['cmust'] = d.get('cmust', []) + ['%s.%s' % (al, x) for x in own_defs.get(tgt, [])]
                     else:
-                        d['cimports'].append({'text': 'import %s as cm%d' % (tgt, j), 'name': 'cm%d' % j})
-                        d['cmust'] = d.get('cmust', []) + ['cm%d.%s' % (j, x) for x in own_defs.get(tgt, [])]
+                        al = forced or 'cm%d' % j
+                        d['cimports'].append({'text': 'import %s as %s' % (tgt, al), 'name': al})
+                        d['cmust'] = d.get('cmust', []) + ['%s.%s' % (al, x) for x in own_defs.get(tgt, [])]
+                    class_aliases.append(al)
                 body.append(d)
                 names_here.append((d['name'], 'class'))
             elif kind == 'func':
